@@ -419,3 +419,30 @@ def concurrent_phase(bindir, dic, wd, tag, seconds=1.5, clients=4, registrations
         problems.append(("wedged", "probe conversion after the concurrent phase: %s" % probe[0]))
     srv.stop()
     return obs, problems
+
+
+def conc_check(run):
+    """Fine-grained concurrency model (Lean Model/Conc over the regenerated event lists): evaluate the lock discipline on
+    every extracted path and search every pair of requests + the background loops for a schedule that ends in a state in
+    which a thread waits for ever.  A schedule found is a model-level witness (replayed on the real server by the
+    concurrent phases of the checks)."""
+    out = run.run_driver(["conc-discipline", "conc-search"], timeout=600)
+    if out is None:
+        return
+    info = (run.cov.get("translator", {}).get("info", {}) or {}).get("Server") or {}
+    run.cov["conc"] = {"discipline": out[0], "deadlock_search": out[1],
+                       "handlers": [(h[0], h[1]) for h in info.get("conc_handlers", [])],
+                       "task_paths": [t[0] for t in info.get("conc_tasks", [])],
+                       "channels_unbounded": info.get("chan_unbounded"),
+                       "search_space": "every ordered pair of handler main paths together with two iterations of every background loop; "
+                                       "a bounded channel starts full"}
+    if out[1] != "none":
+        w = {"kind": "model-deadlock", "threads": out[1].split(" schedule=")[0].replace("deadlock threads=", "").split(","),
+             "schedule": out[1].split(" schedule=")[1].split(" ") if " schedule=" in out[1] else [],
+             "meaning": "interleaving of the extracted event lists (one event of the named thread per step) after which every "
+                        "thread waits for a lock or for room in a bounded channel: no request can complete any more",
+             "discipline": out[0]}
+        run.failures.append(cl.Failure("oracle", "the interleaving model of the extracted handler/task bodies reaches a deadlock: %s" % out[1][:300],
+                                       witness=w, key={"kind": "model-deadlock"}))
+    elif out[0] != "ok":
+        run.failures.append(cl.Failure("proof", "extracted event lists break the lock discipline (%s) but no deadlocking schedule was found" % out[0]))
